@@ -59,7 +59,9 @@ fn flush() {
 
 fn run<M: Monitor>(m: &M, data: &[u8], st: &mut State) {
     let mut rng = Rng::from_tape(data);
-    let case = m.generate(&mut rng, Tier::Quick, 0);
+    // some generators select a shape by the case index: taken from the tape as well
+    let index = rng.below(65536);
+    let case = m.generate(&mut rng, Tier::Quick, index);
     st.tape_bytes += data.len() as u64;
     st.tape_used += rng.consumed().min(data.len()) as u64;
     let mut ctx = Ctx { rep: &mut st.rep, case_seed: 0, tier: Tier::Quick, pending: vec![], verbose: false };
